@@ -111,8 +111,13 @@ def make_transport_class():
         async def write_frame(self, frame: str, disable_tx_limits: bool = False) -> None:
             await super().write_frame(frame)
 
+        ether = None
+
         async def _write_frame(self, frame: str) -> None:
             self.written.append((self._loop.time(), frame))
+            if self.ether is not None:
+                self.ether.transmit(self, frame)
+                return
             on_air = frame.replace(HGI_ID, self.gwy_id, 1) if frame[7:16] == HGI_ID else frame
             if not self.lose_echo(on_air):
                 self._loop.call_later(self.echo_delay, self.inject, on_air, "000")
@@ -126,14 +131,45 @@ def make_transport_class():
     return MockTransport
 
 
+class Ether:
+    """An in-memory RF medium: every transmitted frame is heard by every attached gateway (the sender hears its
+    echo).  `policy(frame, src_id, dst_id) -> list of extra delays`: [] = lost for that listener, two entries = heard twice."""
+
+    LATENCY = 0.01
+
+    def __init__(self, loop) -> None:
+        self.loop = loop
+        self.ports: list = []
+        self.log: list[tuple[float, str, str]] = []
+        self.policy = lambda frame, src, dst: [0.0]
+
+    def transmit(self, src, frame: str) -> None:
+        if frame[:1] == "!":
+            return
+        if frame[7:16] == HGI_ID:
+            frame = frame[:7] + src.gwy_id + frame[16:]
+        self.log.append((self.loop.time(), src.gwy_id, frame))
+        for dst in self.ports:
+            for delay in self.policy(frame, src.gwy_id, dst.gwy_id):
+                self.loop.call_later(self.LATENCY + delay, dst.inject, frame, "000")
+
+    def inject(self, frame: str, delay: float = 0.0, only=None) -> None:
+        """A frame from a third party, heard by all (or the listed) gateways."""
+        self.log.append((self.loop.time() + delay, "3rd-party", frame))
+        for dst in self.ports:
+            if only is None or dst.gwy_id in only:
+                self.loop.call_later(self.LATENCY + delay, dst.inject, frame, "045")
+
+
 class Rig:
     """One gateway on one virtual loop."""
 
     def __init__(self, loop, *, config=None, schema=None, known_list=None, block_list=None, responder=None,
-                 gwy_id=GWY_ID, disable_discovery=True) -> None:
+                 gwy_id=GWY_ID, disable_discovery=True, ether: Ether | None = None) -> None:
         self.loop = loop
         self.responder = responder
         self.gwy_id = gwy_id
+        self.ether = ether
         cfg = {"disable_discovery": disable_discovery, "enforce_known_list": False, **(config or {})}
         self.kwargs = dict(config=cfg, **(schema or {}))
         if known_list:
@@ -157,6 +193,9 @@ class Rig:
 
                 return await T.transport_factory(protocol, packet_log=packet_log, packet_dict=packet_dict, **kw)
             rig.transport = MT(protocol, rig.loop, gwy_id=rig.gwy_id, responder=rig.responder)
+            if rig.ether is not None:
+                rig.transport.ether = rig.ether
+                rig.ether.ports.append(rig.transport)
             return rig.transport
 
         self._real_factory = TG.transport_factory
